@@ -13,7 +13,12 @@ EXTENDS BFDOps, FiniteSets, TLC
 
 CONSTANTS Rel,        \* "rfc" | "code"
           Budget,     \* number of adversarial actions (lose / hold / inject)
-          Foreign     \* BOOLEAN: injected packets may also carry a My Discriminator nobody owns
+          Foreign,    \* BOOLEAN: injected packets may also carry a My Discriminator nobody owns
+          Track,      \* "rfc": bfd.RemoteDiscr := My Discriminator of every accepted packet (RFC 5880 6.8.6)
+                      \* "code": only while it is zero (router/bfd before the repair)
+          Demux       \* "link": a session takes every packet of its link (as the router does)
+                      \* "strict": RFC 5880 6.8.6 - a non-zero Your Discriminator selects the session;
+                      \*           if it is not the receiver's the packet is discarded
 
 S == {"A", "B"}
 Peer(s) == IF s = "A" THEN "B" ELSE "A"
@@ -33,7 +38,7 @@ Packets == [to : S, state : States, my : 0..3, your : 0..3, held : BOOLEAN]
 \* what the adversary injects: any state; My Discriminator = the peer's, a foreign one or zero;
 \* Your Discriminator = zero or the receiver's (the sessions do not look at other values)
 InjPackets == {p \in Packets : /\ ~p.held /\ p.my \in ({0, Disc(Peer(p.to))} \cup (IF Foreign THEN {3} ELSE {}))
-                                /\ p.your \in {0, Disc(p.to)}
+                                /\ p.your \in ({0, Disc(p.to)} \cup (IF Demux = "strict" THEN {3} ELSE {}))
                                 /\ (p.my = 0 => p.state = "Up" /\ p.your # 0)}   \* one discarded kind
 
 Init == /\ st = [s \in S |-> "Down"] /\ rst = [s \in S |-> "Down"] /\ rd = [s \in S |-> 0]
@@ -46,14 +51,15 @@ Send(s) == /\ ~sent[s]
            /\ UNCHANGED <<st, rst, rd, got, budget>>
 
 \* ReceiveMessage (shouldDiscard) + Session.Run, receive branch
-Discarded(p) == p.my = 0 \/ (p.your = 0 /\ p.state \notin {"Down", "AdminDown"})
+Discarded(p) == \/ p.my = 0 \/ (p.your = 0 /\ p.state \notin {"Down", "AdminDown"})
+                \/ (Demux = "strict" /\ p.your # 0 /\ p.your # Disc(p.to))
 Deliver(p) == /\ p \in net
               /\ net' = net \ {p}
               /\ LET s == p.to IN
                  IF Discarded(p) THEN UNCHANGED <<st, rst, rd, got>>
                  ELSE /\ st' = [st EXCEPT ![s] = T(st[s], p.state)]
                       /\ rst' = [rst EXCEPT ![s] = p.state]
-                      /\ rd' = [rd EXCEPT ![s] = IF rd[s] = 0 THEN p.my ELSE rd[s]]
+                      /\ rd' = [rd EXCEPT ![s] = IF Track = "rfc" \/ rd[s] = 0 THEN p.my ELSE rd[s]]
                       /\ got' = [got EXCEPT ![s] = TRUE]         \* detection timer re-armed
               /\ UNCHANGED <<sent, budget>>
 
